@@ -177,6 +177,8 @@ class BcWorld(World):
             op["_mut"] = True
             if self.cfg.get("faults") and frng.random() < 0.3:
                 op["fault"] = {"seam": "solver", "kind": ["memerr", "singular"][int(frng.integers(2))], "k": int(frng.integers(1, 4))}
+                if self.actor == "HyperElastic" and frng.random() < 0.6:
+                    op["fault"]["from_end"] = int(frng.integers(0, 2))
         return op
 
     def _gen_sel(self, rng, anchor=False):
@@ -408,6 +410,42 @@ class BcWorld(World):
         except SutError:
             return False
 
+    def _twin(self):
+        """Brand-new simulation with the same (merged) conditions, started at the current state of the live one."""
+        sim = self.sim
+        raw = meshlib.library()[self.cfg["mesh"]]
+        s2 = simlib.make_sim(self.actor, meshlib.build(raw), simlib.make_model(self.cfg["kind"], self.cfg["params"]))
+        dd, dv = np.array(self.dir_dofs, dtype=int), np.array(self.dir_vals, dtype=float)
+        known = np.unique(dd)
+        vals = np.array([dv[dd == d].sum() for d in known])
+        s2._Bc_Add_Dirichlet(self.pt, known // len(self.un), vals, known, list(self.un))
+        for bc in sim.Bc_Neuman:
+            s2._Bc_Add_Neumann(bc.problemType, bc.nodes, bc.dofsValues, bc.dofs, bc.unknowns)
+        simlib.set_state(s2, simlib.get_state(sim))
+        return s2
+
+    def _newton_equations_check(self, u, uD):
+        """'The free dofs satisfy the assembled equations with the applied loads to solver accuracy', Newton actors:
+        a brand-new simulation with the same conditions is started *at* the returned solution.  Its first residual
+        must be at the level of the Newton tolerances and solving from there must not move the solution.  (A solve
+        that 'converged' on a stale residual -- e.g. the tangent and residual of an abandoned iterate -- fails both.)
+        Both conditions are required before anything is flagged, so an iterate accepted by any of the three
+        documented criteria passes."""
+        ctx, sim = self.ctx, self.sim
+        try:
+            with ctx.sut():
+                s2 = self._twin()
+                u2, nit, _, norms = s2._Solver_Solve_Newton_Raphson()
+        except SutError:
+            ctx.probe("newton_equations_check_reference_failed")
+            return
+        absTol = 1.0e-6  # documented default of Solver_Set_Newton_Raphson_Algorithm (the engine never changes it)
+        moved = refs.maxabs(np.asarray(u2) - u)
+        scale = max(refs.maxabs(u), refs.maxabs(uD) if np.size(uD) else 0.0)
+        if norms[0] > 10 * absTol and moved > 1e-3 * scale + 1e-9 * self.Lc:
+            raise Violation("equations-not-satisfied", f"Newton: the returned solution leaves a residual of {norms[0]:.3e} (absTol {absTol:g}) on a brand-new simulation with the same conditions, and solving from it moves the solution by {moved:.3e} (max|u| {scale:.3e})")
+        ctx.checked()
+
     def _solve(self, op):
         ctx, sim = self.ctx, self.sim
         nonlinear = self.actor == "HyperElastic"
@@ -418,6 +456,18 @@ class BcWorld(World):
                 return "ill-conditioned"
         before = simlib.get_state(sim)
         fault = op.get("fault") if self.cfg.get("faults") else None
+        if fault and nonlinear and "from_end" in fault:
+            # place the failure relative to the *end* of the Newton loop (its last iterations are where a retry can be
+            # fooled by leftovers): the length of the loop is measured on a twin that is thrown away
+            try:
+                with ctx.sut():
+                    tw = self._twin()
+                    c0 = self.solver.calls
+                    tw.Solve()
+                fault = dict(fault, k=max(1, self.solver.calls - c0 - int(fault["from_end"])))
+                ctx.probe("fault_placed_from_end_of_newton_loop")
+            except SutError:
+                fault = None
         if fault:
             self.solver.arm(fault)
         failed = None
@@ -469,6 +519,7 @@ class BcWorld(World):
                 raise Violation("constraint-not-held", f"dof {known[i]} (entered {dup}x) holds {u[known][i]:.6g}, prescribed (sum of entries) {uD[i]:.6g} [{'newton' if nonlinear else 'elimination'}]")
             ctx.checked()
         if nonlinear:
+            self._newton_equations_check(u, uD)
             return "ok"
 
         direct = bool(self.n_lagrange) or self.backend == "scipy"
